@@ -35,7 +35,8 @@ type c14Order struct {
 	height             uint64 // block passed to PairAddOrder
 	fills              int
 	closed             string  // "", filled, little, cancel, expired
-	fT, fI             float64 // float64(ws/wb) (price for the taker), float64(wb/ws)
+	fT, fI             float64 // float64(ws/wb) (price for the taker), float64(wb/ws) of the remaining volumes
+	fT0, fI0           float64 // the same for the volumes as placed
 	how                string  // how its price was generated
 }
 
@@ -44,9 +45,13 @@ func (o *c14Order) refloat() {
 		o.fT, _ = new(big.Rat).SetFrac(o.ws, o.wb).Float64()
 		o.fI, _ = new(big.Rat).SetFrac(o.wb, o.ws).Float64()
 	}
+	if o.fT0 == 0 {
+		o.fT0, _ = new(big.Rat).SetFrac(o.ws0, o.wb0).Float64()
+		o.fI0, _ = new(big.Rat).SetFrac(o.wb0, o.ws0).Float64()
+	}
 }
 
-// ratCmpPrice compares the exact taker prices ws/wb of a and b.
+// ratCmpPrice compares the exact taker prices ws/wb of a and b (remaining volumes).
 func ratCmpPrice(a, b *c14Order) int {
 	return new(big.Int).Mul(a.ws, b.wb).Cmp(new(big.Int).Mul(b.ws, a.wb))
 }
@@ -55,14 +60,15 @@ func ratCmpPrice(a, b *c14Order) int {
 // u's price is better for the taker and the two are distinguishable at double precision (in the price and in its
 // reciprocal, the two float representations an implementation can reasonably sort by), or the prices are exactly equal
 // and u has the lower id.  Prices that differ exactly but coincide as float64 may be consumed in either order.
+// "The price" of a partially filled order ("keeps its price", up to a unit of rounding) can be read as the ratio it was
+// placed with or as the ratio of what is left of it, so such an order has a price interval [min,max] of the two and
+// an order of consumption is demanded only if it holds for every choice; the tie rule (lower id first) is demanded
+// only between orders that were never partially filled, where the price is unambiguous.
 func mustPrecede(u, f *c14Order) bool {
-	if u.fT > f.fT && u.fI < f.fI {
-		return true
+	if u.fills == 0 && f.fills == 0 {
+		return (u.fT > f.fT && u.fI < f.fI) || (u.fT == f.fT && u.id < f.id && ratCmpPrice(u, f) == 0)
 	}
-	if u.fT == f.fT && u.id < f.id && ratCmpPrice(u, f) == 0 {
-		return true
-	}
-	return false
+	return math.Min(u.fT, u.fT0) > math.Max(f.fT, f.fT0) && math.Max(u.fI, u.fI0) < math.Min(f.fI, f.fI0)
 }
 
 type c14 struct {
@@ -600,7 +606,7 @@ func (c *c14) trade() {
 		}
 	}); pv != nil {
 		c.log.add(op+"-precheck-panic", "side", side, "amount", amt)
-		c.viol("panic", "precheck/"+op+":"+site, "pre-check of %s %s on side %d panicked: %v", op, amt, side, pv)
+		c.viol("panic", "precheck/"+op+":"+site, "pre-check of %s %s on side %d: %v", op, amt, side, pv)
 		c.dead = true
 		return
 	}
@@ -659,9 +665,15 @@ func (c *c14) judgeTrade(op, kind string, side int, det *swap.ChangeDetailsWithO
 			continue
 		}
 		if seen[id] {
-			c.viol("fill-twice", op, "order %d appears twice in the fills of one trade", id)
-			bad = true
-			continue
+			n := 0
+			for _, x := range det.Orders {
+				if x.ID() == id {
+					n++
+				}
+			}
+			c.viol("fill-twice", op, "order %d appears %d times in the %d fills of one trade", id, n, len(det.Orders))
+			c.dead = true // the book of the code under test is corrupt from here on
+			return
 		}
 		seen[id] = true
 		if l.Owner != o.owner {
